@@ -33,11 +33,13 @@ func (m *Machine) rangeOp(fr *Frame, in *ssa.Range) {
 			switch m.ex.choose(m, 3, "map order") {
 			case 1:
 				m.divergences++
+				m.events = append(m.events, "map range at "+m.pos(in)+" runs in reversed order")
 				for i, j := 0, len(it.Keys)-1; i < j; i, j = i+1, j-1 {
 					it.Keys[i], it.Keys[j] = it.Keys[j], it.Keys[i]
 				}
 			case 2:
 				m.divergences++
+				m.events = append(m.events, "map range at "+m.pos(in)+" runs rotated by one")
 				it.Keys = append(it.Keys[1:], it.Keys[0])
 			}
 		}
